@@ -47,6 +47,26 @@ def gen_case(rng):
         # a missing middle layer must be an error
         del contents[names[1]]
         meta["kind"] = "missing"
+    elif kind < 0.5:
+        # a $parent list (or $parent in several documents of one file) with an entry that names no layer / a wildcard that
+        # matches nothing, next to entries that do exist: still an error, never silently skipped
+        contents["other"] = (rng.choice(EXTS), [{"o": 1}])
+        ext, docs = contents[top]
+        d0 = dict(docs[0])
+        missing = rng.choice(["nosuch", "gone.layer", "nos*", "other.nosuch"])
+        how = rng.random()
+        if how < 0.6:
+            ps = ["other", missing]
+            rng.shuffle(ps)
+            if depth > 1 and rng.random() < 0.4:
+                ps.insert(rng.randint(0, 2), names[0])
+            d0["$parent"] = ps
+            contents[top] = (ext if ext != "toml" else "yaml", [d0])
+        else:
+            d0["$parent"] = "other"
+            d1 = {"$parent": missing, "$match": None, "extra": 1}
+            contents[top] = ("yaml", [d0, d1] if rng.random() < 0.5 else [dict(d1, **{"$parent": "other"}), dict(d0, **{"$parent": missing})])
+        meta["kind"] = "parent-missing-entry"
     elif kind < 0.6:
         # $parent overrides the filename rule: the top layer names another file
         other = "other"
@@ -86,10 +106,21 @@ def gen_case(rng):
         layout[f"{n}.{ext}"] = {"fmt": ext, "docs": docs}
     topfile = next((f for f in layout if f.rsplit(".", 1)[0] == top), None)
     if meta["kind"] == "symlink" and topfile:
-        lname = "link." + topfile.rsplit(".", 1)[1]
-        layout[lname] = {"link": topfile}
+        # the link inherits from its TARGET's name; its own name (plain or dotted, with or without an existing
+        # layer of that name) plays no role.  Targets: the top of the chain, or the base layer (no parent at all).
+        target = topfile if rng.random() < 0.6 else next(f for f in layout if f.rsplit(".", 1)[0] == names[0])
+        lstem = rng.choice(["link", "link", "c.d", "other.dev", "p.q.r"])
+        if lstem != "link" and rng.random() < 0.5:
+            layout[lstem.split(".")[0] + ".yaml"] = {"fmt": "yaml", "docs": [{"decoy_parent_of_link_name": True}]}
+        lname = lstem + "." + target.rsplit(".", 1)[1]
+        layout[lname] = {"link": target}
         opts["inputs"] = [lname]
         opts["format"] = "json"
+        if rng.random() < 0.3:
+            # the link as a middle layer: a further layer on top of the link's name
+            up = lstem + ".top.yaml"
+            layout[up] = {"fmt": "yaml", "docs": [{"uptop": 1}]}
+            opts["inputs"] = [up]
     elif meta["kind"] == "multi-input":
         extra = "second"
         layout[extra + ".yaml"] = {"fmt": "yaml", "docs": [{"second": True, "$match": None}] if rng.random() < 0.5 else [{"second": True}]}
@@ -164,7 +195,7 @@ def evaluate(rep, cases, rng):
         rep.count(f"kind:{kind}:rc{obs['rc']}")
         rep.traces += 1
         d = compare_with_model(obs, mres.get(i))
-        if d is None and kind == "missing" and obs["rc"] == 0:
+        if d is None and kind in ("missing", "parent-missing-entry") and obs["rc"] == 0:
             d = "a missing layer was silently skipped"
         if d:
             bad += 1
